@@ -60,13 +60,29 @@ def gen_table(rng):
     ref = [(n, [val() for _ in range(nr)]) for n in base if rng.random() < 0.75]
     rng.shuffle(src)
     rng.shuffle(ref)
-    return {"kind": "table", "src_rows": ns, "ref_rows": nr, "src": src, "ref": ref}
+    c = {"kind": "table", "src_rows": ns, "ref_rows": nr, "src": src, "ref": ref, "src_idx": None, "ref_idx": None}
+    # tables may carry a row index map (reordering / filtering view of the stored columns)
+    for side, n in (("src", ns), ("ref", nr)):
+        if n and rng.random() < 0.4:
+            idx = list(range(n))
+            rng.shuffle(idx)          # (the constructor requires stored columns as long as the index map: a row permutation)
+            stored = n
+            c[side + "_idx"] = idx
+            c[side + "_stored"] = [(nm, [Fr(rng.randint(-64, 64), 8) for _ in range(stored)]) for nm, _ in c[side]]
+            # logical columns = stored[idx]
+            c[side] = [(nm, [vals[i] for i in idx]) for nm, vals in c[side + "_stored"]]
+            c[side + "_rows"] = len(idx)
+    return c
 
 
 def run_table(c):
     from fieldcompare.tabular import Table, TabularFields
-    a = TabularFields(Table(num_rows=c["src_rows"]), {n: np.array([float(v) for v in vals], dtype=float) for n, vals in c["src"]})
-    b = TabularFields(Table(num_rows=c["ref_rows"]), {n: np.array([float(v) for v in vals], dtype=float) for n, vals in c["ref"]})
+    def mk(side):
+        if c.get(side + "_idx") is not None:
+            return TabularFields(Table(idx_map=np.array(c[side + "_idx"], dtype=np.int64)),
+                                 {n: np.array([float(v) for v in vals], dtype=float) for n, vals in c[side + "_stored"]})
+        return TabularFields(Table(num_rows=c[side + "_rows"]), {n: np.array([float(v) for v in vals], dtype=float) for n, vals in c[side]})
+    a, b = mk("src"), mk("ref")
     d = a.diff_to(b)
     return {"rows": d.domain.number_of_rows, "fields": {f.name: impl_values(f.values) for f in d}}
 
@@ -95,8 +111,11 @@ def gen_mesh_case(rng):
         cf = {nm: {t: [val() for _ in rows] for t, rows in M["blocks"]} for nm in base if rng.random() < 0.5}
         return pf, cf
     (ps, cs), (pr, cr) = side(), side()
+    order = list(range(len(M["blocks"])))
+    if rng.random() < 0.5:
+        rng.shuffle(order)
     return {"kind": "mesh", "mesh": M, "src": {"pf": ps, "cf": cs}, "ref": {"pf": pr, "cf": cr},
-            "same_domain": rng.random() < 0.85}
+            "same_domain": rng.random() < 0.85, "ref_block_order": order}
 
 
 def mesh_cols(c, side):
@@ -110,6 +129,7 @@ def mesh_cols(c, side):
 def run_mesh(c):
     A = dict(c["mesh"], pf=c["src"]["pf"], cf=c["src"]["cf"])
     B = dict(c["mesh"], pf=c["ref"]["pf"], cf=c["ref"]["cf"])
+    B["blocks"] = [c["mesh"]["blocks"][i] for i in c.get("ref_block_order", range(len(c["mesh"]["blocks"])))]
     if not c["same_domain"]:
         B = G.copy_mesh(B)
         B["pts"][0][0] += 1000
